@@ -66,6 +66,11 @@ class GameIO:
         """'' if a generated document lies in the reader property's dialect (guards the shrinker)."""
         return ""
 
+    def valid_pipeline_doc(self, doc, c) -> str:
+        """'' if a C09 source document still satisfies the constraints its generator enforced
+        (key count the target supports, tempo changes on measure lines, grid positions): guards the shrinker."""
+        return ""
+
 
 IO: dict[str, GameIO] = {}
 
@@ -149,7 +154,7 @@ class FsInstall(OpSpec):
         if "bytes" in op:
             data = op["bytes"]
         else:
-            why = g.valid_doc(op["doc"])
+            why = g.valid_doc(op["doc"]) or (g.valid_pipeline_doc(op["doc"], op["constraint"]) if op.get("constraint") else "")
             if why:
                 raise HarnessError(f"generated {op['game']} document outside the dialect: {why}")
             data = g.render(op["doc"], op.get("fmt") or {})
@@ -259,7 +264,8 @@ class IoWrite(OpSpec):
         layout = op.get("layout")
         prop = op.get("prop") or g.prop_write
         a = g.alpha(h.obj)
-        why = g.writable(a, layout)
+        c09 = prop == "C09"  # the pipeline property has its own (generator-enforced) domain and its own oracle
+        why = "" if c09 else g.writable(a, layout)
         if why:
             out.skipped = True
             out.note = ("io.write", "out-of-domain", why)
@@ -317,8 +323,9 @@ class IoWrite(OpSpec):
             out.fail(prop, inv, f"the written {op['game']} file is not well-formed: {e}")
             fs.lineage.pop(path, None)
             return out
-        for m in g.cmp_write(a, den, layout)[:3]:
-            out.fail(prop, inv, m)
+        if not c09:
+            for m in g.cmp_write(a, den, layout)[:3]:
+                out.fail(prop, inv, m)
         # ---- H-gen: later generations denote what the first written generation denotes
         root = h.meta.get("lineage")
         same = h.meta.get("lineage_snap") == digest(snapshot(g.kind, h.obj)) and h.meta.get("lineage_game") == op["game"]
